@@ -314,3 +314,34 @@ func VerifHarness_C03_ScanRepeats() {
 		verifReach("nonempty")
 	}
 }
+
+// words with non-ASCII letters / digits: the index and the query side must cut them the same
+// way, so a command is found by each of its own (tokenised) words
+func VerifHarness_C03_ScanUnicode() {
+	mk := func(cmd, d string) Command {
+		c := Command{Command: cmd, Description: d}
+		vFill(&c)
+		return c
+	}
+	words := []string{"résumé", "naïve", "m²", "über", "日本"}
+	w := words[verifIntRange("word", 0, len(words)-1)]
+	db := &Database{Commands: []Command{mk("aa", w+" builder"), mk("bb", "plain text"), mk(w, "cc")}}
+	db.BuildUniversalIndex()
+	res := db.SearchUniversal(w, SearchOptions{Limit: 5, AllPlatforms: true})
+	for _, want := range []int{0, 2} {
+		if len(normalizeAndTokenize(w)) == 0 {
+			continue // the word has no indexable part at all
+		}
+		found := false
+		for _, r := range res {
+			if r.Command == &db.Commands[want] {
+				found = true
+			}
+		}
+		verifAssert(found, "C03: a command containing the query word is returned (index and query tokenise alike)")
+	}
+	verifReach("compared")
+	if len(res) > 0 {
+		verifReach("nonempty")
+	}
+}
